@@ -176,6 +176,7 @@ func runVerification(o RunOpts) (*RunResult, error) {
 	t0 := time.Now()
 	db := ld.DB
 	loadBaselineNames(o.Verif)
+	resolveRenamedFuncs(ld)
 	computeRenames(ld)
 	for _, name := range db.LemmaOrder {
 		lm := db.Lemmas[name]
